@@ -250,6 +250,12 @@ fn build_target(kind: &'static str, mode: Mode) -> Result<Target, String> {
         }
         Mode::Sidecar => (signed.asset, signed.sidecar.ok_or("no sidecar data")?),
     };
+    target_from(kind, mode, ctx, asset, store)
+}
+
+/// Analyse a signed store: box tree, class table, baseline report (also used by the worker processes, which
+/// load the stores the parent built).
+fn target_from(kind: &'static str, mode: Mode, ctx: Arc<Context>, asset: Vec<u8>, store: Vec<u8>) -> Result<Target, String> {
     let boxes = jw::walk_store(&store)?;
     let (tab, classes) = jw::class_table(&boxes, store.len());
     let name = format!("{kind}/{}", if mode == Mode::Embedded { "jpeg" } else { "sidecar" });
@@ -443,14 +449,39 @@ fn describe(t: &Target, m: &Mutation) -> (String, usize, usize) {
     }
 }
 
-fn judge(run: &Run, targets: &BTreeMap<String, Target>, selftest: bool, c: &Case) -> CaseResult {
+/// Everything one evaluation produces (collected in worker processes, applied to the `Run` by the parent).
+struct Outcome {
+    classes: Vec<String>,
+    nontrivial: bool,
+    res: CaseResult,
+}
+
+struct Sink {
+    classes: std::cell::RefCell<Vec<String>>,
+    nt: std::cell::Cell<bool>,
+}
+
+impl Sink {
+    fn count(&self, c: &str) {
+        self.classes.borrow_mut().push(c.to_string());
+    }
+}
+
+const LAYOUT_CHANGED: &str = "skipped_layout_changed";
+
+fn judge(targets: &BTreeMap<String, Target>, selftest: bool, c: &Case) -> Outcome {
+    let sink = Sink { classes: Default::default(), nt: Default::default() };
+    let res = judge_inner(&sink, targets, selftest, c);
+    Outcome { classes: sink.classes.into_inner(), nontrivial: sink.nt.get(), res }
+}
+
+fn judge_inner(run: &Sink, targets: &BTreeMap<String, Target>, selftest: bool, c: &Case) -> CaseResult {
     let Some(t) = targets.get(&c.target) else {
         run.count("skipped_unknown_target");
         return Ok(());
     };
     if t.layout != c.layout {
-        run.count("skipped_layout_changed");
-        run.inconclusive(format!("{}: store layout differs from the one the case was recorded for", t.name));
+        run.count(LAYOUT_CHANGED);
         return Ok(());
     }
     let mutated = match &c.m {
@@ -501,7 +532,7 @@ fn judge(run: &Run, targets: &BTreeMap<String, Target>, selftest: bool, c: &Case
     let detail = class_detail(&main_class, &t.boxes, lo);
     run.count(&format!("{kind_name}:{detail}"));
     if cls.iter().any(|k| hashed_class(&t.classes[*k])) {
-        run.nontrivial(c);
+        run.nt.set(true);
     }
     let to_read: &[u8] = if selftest && main_class == SpanClass::ClaimCbor { &t.store } else { &mutated };
     let res = match read_store(t.mode, &t.ctx, &t.asset, to_read) {
